@@ -50,30 +50,30 @@ EXTERN = {}
 FALLBACK = {
     "len": "do pure (← getBuf).size", "is_empty": "do pure (decide ((← getBuf).size = 0))",
     "is_full": "do pure (decide ((← getBuf).size = (← getBuf).cap))",
-    "inc_start": "incStart", "dec_start": "decStart", "inc_size": "incSize", "dec_size": "decSize",
-    "front_maybe_uninit_mut": "frontSlot", "front_maybe_uninit": "frontSlot",
-    "back_maybe_uninit": "backSlot", "back_maybe_uninit_mut": "backSlot",
-    "get_maybe_uninit": "getSlot", "get_maybe_uninit_mut": "getSlot",
-    "slices_uninit_mut": "slicesUninitMut", "as_slices": "asSlices", "as_mut_slices": "asSlices",
-    "front": "front?", "back": "back?", "get": "get?", "front_mut": "front?", "back_mut": "back?",
-    "get_mut": "get?", "nth_front": "nthFront?", "nth_back": "nthBack?",
-    "push_back": "pushBack", "push_front": "pushFront", "try_push_back": "tryPushBack",
-    "try_push_front": "tryPushFront", "pop_back": "popBack", "pop_front": "popFront",
-    "swap": "swap", "swap_remove_back": "swapRemoveBack", "swap_remove_front": "swapRemoveFront",
-    "drop_range": "fun r => dropRange r.1 r.2", "truncate_back": "truncateBack",
-    "truncate_front": "truncateFront", "clear": "clear", "remove": "remove",
-    "make_contiguous": "makeContiguous",
+    "inc_start": "_root_.CircBuf.incStart", "dec_start": "_root_.CircBuf.decStart", "inc_size": "_root_.CircBuf.incSize", "dec_size": "_root_.CircBuf.decSize",
+    "front_maybe_uninit_mut": "_root_.CircBuf.frontSlot", "front_maybe_uninit": "_root_.CircBuf.frontSlot",
+    "back_maybe_uninit": "_root_.CircBuf.backSlot", "back_maybe_uninit_mut": "_root_.CircBuf.backSlot",
+    "get_maybe_uninit": "_root_.CircBuf.getSlot", "get_maybe_uninit_mut": "_root_.CircBuf.getSlot",
+    "slices_uninit_mut": "_root_.CircBuf.slicesUninitMut", "as_slices": "_root_.CircBuf.asSlices", "as_mut_slices": "_root_.CircBuf.asSlices",
+    "front": "_root_.CircBuf.front?", "back": "_root_.CircBuf.back?", "get": "_root_.CircBuf.get?", "front_mut": "_root_.CircBuf.front?", "back_mut": "_root_.CircBuf.back?",
+    "get_mut": "_root_.CircBuf.get?", "nth_front": "_root_.CircBuf.nthFront?", "nth_back": "_root_.CircBuf.nthBack?",
+    "push_back": "_root_.CircBuf.pushBack", "push_front": "_root_.CircBuf.pushFront", "try_push_back": "_root_.CircBuf.tryPushBack",
+    "try_push_front": "_root_.CircBuf.tryPushFront", "pop_back": "_root_.CircBuf.popBack", "pop_front": "_root_.CircBuf.popFront",
+    "swap": "_root_.CircBuf.swap", "swap_remove_back": "_root_.CircBuf.swapRemoveBack", "swap_remove_front": "_root_.CircBuf.swapRemoveFront",
+    "drop_range": "fun r => _root_.CircBuf.dropRange r.1 r.2", "truncate_back": "_root_.CircBuf.truncateBack",
+    "truncate_front": "_root_.CircBuf.truncateFront", "clear": "_root_.CircBuf.clear", "remove": "_root_.CircBuf.remove",
+    "make_contiguous": "_root_.CircBuf.makeContiguous",
 }
 # the iterator layer (`src/iter.rs`): free function / methods of `impl Iter`, as (generated name,
 # regex of the enclosing impl header or None, Rust fn name, hand-model counterpart)
 ITER_FRAGMENT = [
-    ("translate_range_bounds", None, "translate_range_bounds", "translateRange"),
-    ("Iter_empty", r"impl<'a, T> Iter<'a, T>", "empty", "pure Iter.empty"),
-    ("Iter_new", r"impl<'a, T> Iter<'a, T>", "new", "Iter.new"),
-    ("Iter_advance_front_by", r"impl<'a, T> Iter<'a, T>", "advance_front_by", "Iter.advanceFrontBy"),
-    ("Iter_advance_back_by", r"impl<'a, T> Iter<'a, T>", "advance_back_by", "Iter.advanceBackBy"),
-    ("Iter_over_range", r"impl<'a, T> Iter<'a, T>", "over_range", "Iter.overRange"),
-    ("Iter_len", r"impl<T> ExactSizeIterator for Iter<'_, T>", "len", "Iter.len"),
+    ("translate_range_bounds", None, "translate_range_bounds", "_root_.CircBuf.translateRange"),
+    ("Iter_empty", r"impl<'a, T> Iter<'a, T>", "empty", "pure _root_.CircBuf.Iter.empty"),
+    ("Iter_new", r"impl<'a, T> Iter<'a, T>", "new", "_root_.CircBuf.Iter.new"),
+    ("Iter_advance_front_by", r"impl<'a, T> Iter<'a, T>", "advance_front_by", "_root_.CircBuf.Iter.advanceFrontBy"),
+    ("Iter_advance_back_by", r"impl<'a, T> Iter<'a, T>", "advance_back_by", "_root_.CircBuf.Iter.advanceBackBy"),
+    ("Iter_over_range", r"impl<'a, T> Iter<'a, T>", "over_range", "_root_.CircBuf.Iter.overRange"),
+    ("Iter_len", r"impl<T> ExactSizeIterator for Iter<'_, T>", "len", "_root_.CircBuf.Iter.len"),
 ]
 PANIC_TAG = {
     "range start index exceeds maximum usize": "range_start_overflow",
@@ -993,6 +993,23 @@ class Emit:
                 self.kinds = saved
                 eb = self.body(rest, tail)
                 return out + p + [f"if {cv} then do"] + ind(tb) + ["else do"] + ind(eb)
+            # let x = match e { P => return v, Q => expr };  — an arm may leave the function
+            if s[0] == "let" and s[2][0] == "match" and any(arm_returns(b) for _, b in s[2][2]):
+                _, scrut, arms = s[2]
+                p, v, kk = self.ex(scrut)
+                lines = [f"match {v} with"]
+                for pat, b in arms:
+                    saved = dict(self.kinds)
+                    lp = self.lean_pat(pat, kk)
+                    lines.append(f"| {lp} => do")
+                    if arm_returns(b):
+                        lines += ind(self.body(b[1], b[2]))
+                    else:
+                        # the arm's value is bound to the pattern of the `let`, then the rest of the body runs
+                        cont = [("let", s[1], ("block", b[1], b[2]) if b[1] else b[2])] + list(rest)
+                        lines += ind(self.body(cont, tail))
+                    self.kinds = saved
+                return out + p + lines
             # let x = e?;  /  let x = a.m()?.n()?;
             if s[0] == "let" and s[2][0] == "try":
                 return out + self.try_chain(s[1], s[2], rest, tail)
@@ -1055,6 +1072,13 @@ class Emit:
         name = self.bind_pat(pat, "nat", inner)
         cont = self.body(rest, tail)
         return p + [f"match {v} with", "| none => pure none", f"| some {name} => do"] + ind(cont)
+
+
+def arm_returns(b):
+    """does this match arm (a block) end in `return ...`?"""
+    if b[2] is not None:
+        return b[2][0] == "return"
+    return bool(b[1]) and b[1][-1][0] == "expr" and b[1][-1][1][0] == "return"
 
 
 def ends_in_return(b):
@@ -1216,7 +1240,63 @@ def translate(src, name, fragment):
 REF_SIG = {}
 
 
+def elaboration_failures(out):
+    """names of generated definitions that Lean rejects (type errors in emitted code); [] if the file
+    cannot be checked here (no lake project around it, or its imports are not built yet)"""
+    import os, subprocess
+    d = os.path.dirname(os.path.abspath(out))
+    root = None
+    while d != "/":
+        if os.path.exists(os.path.join(d, "lakefile.toml")) or os.path.exists(os.path.join(d, "lakefile.lean")):
+            root = d; break
+        d = os.path.dirname(d)
+    if root is None:
+        return []
+    try:
+        p = subprocess.run(["lake", "env", "lean", os.path.abspath(out)], cwd=root, capture_output=True, text=True, timeout=600)
+    except Exception:
+        return []
+    txt = p.stdout + p.stderr
+    if p.returncode == 0 or "object file" in txt or "unknown module prefix" in txt:
+        return []
+    lines = open(out).read().split("\n")
+    starts = [(i + 1, m.group(1)) for i, l in enumerate(lines) for m in [re.match(r"def Gen\.(\w+)", l)] if m]
+    bad = []
+    for m in re.finditer(r":(\d+):\d+: error", txt):
+        ln = int(m.group(1))
+        owner = None
+        for st, name in starts:
+            if st <= ln:
+                owner = name
+        if owner and owner not in bad:
+            bad.append(owner)
+    return bad
+
+
 def main():
+    force_fallback = {}
+    for _ in range(4):
+        generate(force_fallback)
+        bad = elaboration_failures(sys.argv[2])
+        new = [b for b in bad if b not in force_fallback]
+        if not new:
+            break
+        for b in new:
+            force_fallback[b] = "the generated definition does not elaborate in Lean"
+    report()
+
+
+_REPORT = {}
+
+
+def report():
+    for n, why in _REPORT.get("failed", []):
+        print(f"T3: cannot translate `{n}`: {why}")
+    print(_REPORT.get("summary", "T3: nothing generated"))
+    sys.exit(_REPORT.get("rc", 3))
+
+
+def generate(force_fallback):
     src = strip_comments(open(sys.argv[1]).read())
     out = sys.argv[2]
     # result kinds must be known before bodies that call them are translated
@@ -1238,6 +1318,10 @@ def main():
             failed.append((n, str(e)))
         except Exception as e:                       # a parser bug is a translation failure, not a crash
             failed.append((n, f"internal: {type(e).__name__}: {e}"))
+    for n, why in force_fallback.items():
+        if n in texts:
+            texts.pop(n)
+            failed.append((n, why))
     # definitions in dependency order (callees first); a call cycle cannot be emitted: fall back
     deps = {n: set(m for m in re.findall(r"\bGen\.(\w+)", t) if m != n and m in FALLBACK) for n, t in texts.items()}
     order, state = [], {}
@@ -1286,6 +1370,8 @@ def main():
     iter_names = {g for g, _, _, _ in ITER_FRAGMENT}
     for gname, impl_re, fname, model in ITER_FRAGMENT:
         try:
+            if gname in force_fallback:
+                raise TErr(force_fallback[gname])
             text, rk, ptys, rty = translate_iter(isrc, gname, impl_re, fname, set(done) | iter_names)
             if " → ".join(ptys + [f"M ({rty})"]) != ITER_SIG[gname]:
                 raise TErr(f"signature changed: {' → '.join(ptys + [rty])}")
@@ -1310,11 +1396,10 @@ def main():
         old = None
     if old != text:
         open(out, "w").write(text)
-    for n, why in failed:
-        print(f"T3: cannot translate `{n}`: {why}")
     ntr = len(done) - len(failed)
-    print(f"T3: {'unchanged' if old == text else 'regenerated'}: {ntr}/{len(FRAGMENT) + len(ITER_FRAGMENT)} functions translated")
-    sys.exit(0 if ntr else 3)
+    _REPORT["failed"] = failed
+    _REPORT["summary"] = f"T3: {'unchanged' if old == text else 'regenerated'}: {ntr}/{len(FRAGMENT) + len(ITER_FRAGMENT)} functions translated"
+    _REPORT["rc"] = 0 if ntr else 3
 
 
 if __name__ == "__main__":
